@@ -43,7 +43,7 @@ CLAIMED["C13"] = (
     "`remaining` is written only by track with exactly that cost, the tracker is read nowhere else, and the budget "
     "arithmetic has no value-changing cast or overflow-capable operation.  These make the cost of a render "
     "independent of the budget and success monotone in it for all programs and all budgets up to u64::MAX; the "
-    "numeric threshold of a particular render is not computed. (G6) the configured budget reaches the tracker unchanged: writers of Environment.fuel store their argument / a constant / a clone, the getter returns the field, State::new maps it through FuelTracker::new.",
+    "numeric threshold of a particular render is not computed. (G6) the configured budget reaches the tracker unchanged: writers of Environment.fuel store their argument / a constant / a clone, the getter returns the field, State::new maps it through FuelTracker::new. (G7) for every call of the engine that takes the State and returns Result<_, Error>: the Err is returned / propagated carrying that call's own error, or replaced only under a test of its kind() against a constant kind. G2-G4 read eval_impl / track through their private helpers.",
     "DESIGN.md §3 C13",
     "Configuration MAX (feature fuel on).  Host callbacks cannot reach the private tracker (type privacy).")
 
@@ -55,7 +55,7 @@ CLAIMED["C19"] = (
     "each WriteWrapper construction is paired with take_err on the error path, and take_err yields WriteFailure with "
     "the io::Error as source; macros render into their own buffer.  Decides 'never swallowed / converted / panics' "
     "for every path of the engine's own code (thorough: in four feature configurations); the prefix/ordering of "
-    "delivered bytes is value-level and not decided. Later additions: (O6) in the escaping / output code no write on a sink can run after an earlier write on it failed (every path between two writes tests the first result); (O7) every WriteWrapper is built around the entry point's own writer parameter, never around the result of a call (a buffering adapter writes late, after a reported failure, and ignores the result).",
+    "delivered bytes is value-level and not decided. Later additions: (O6) in the escaping / output code no write on a sink can run after an earlier write on it failed (every path between two writes tests the first result); (O7) every WriteWrapper is built around the entry point's own writer parameter, never around the result of a call (a buffering adapter writes late, after a reported failure, and ignores the result). (O8) in every engine function with a &mut Formatter parameter the Result of each call given the formatter is returned or propagated; a Result::or_else whose closure can succeed counts as swallowing.",
     "DESIGN.md §3 C19",
     "std::fmt machinery is trusted to propagate Err from write_str; host-supplied formatters/objects are assumed to propagate.")
 
@@ -69,7 +69,7 @@ CLAIMED["C11"] = (
     "the whole-program call graph (CHA + closure + fn-pointer + generic/dyn callback resolution) the interpreter is "
     "acyclic once the charged edges are removed and cannot reach the uncharged top-level entry.  This decides, for "
     "all recursive program shapes, that recursion is counted against the limit; whether the native stack suffices "
-    "for the counted depth is a per-frame size question the quick tier does not decide. Also: the inherited depth counter is written only as reset / +=delta / -=delta / absolute restore of a Context::depth() checkpoint taken before the charge, and decr_depth uses the constant of the dominating incr_depth; thorough tier: a lower bound of native stack use (frame sizes from -Zemit-stack-sizes x nesting admitted by the limit) stays below 2 MiB. Later additions: (R7) every conditional part of a charge holds whenever Context::depth() exceeds a small constant, and constructs that reset current_block raise the depth above it; R5 (thorough) separates unconditional from conditional charges and bounds mixed two-construct cycles. (R9) a function that installs another context hands the call site's depth to it on every path to the swap, with no zeroing call in between.",
+    "for the counted depth is a per-frame size question the quick tier does not decide. Also: the inherited depth counter is written only as reset / +=delta / -=delta / absolute restore of a Context::depth() checkpoint taken before the charge, and decr_depth uses the constant of the dominating incr_depth; thorough tier: a lower bound of native stack use (frame sizes from -Zemit-stack-sizes x nesting admitted by the limit) stays below 2 MiB. Later additions: (R7) every conditional part of a charge holds whenever Context::depth() exceeds a small constant, and constructs that reset current_block raise the depth above it; R5 (thorough) separates unconditional from conditional charges and bounds mixed two-construct cycles. (R9) a function that installs another context hands the call site's depth to it on every path to the swap, with no zeroing call in between. (R10 = C05.B8) the program counter only takes positions of the running instructions. R1/R6/R7 look through private helpers and, where dominance fails, walk the paths with the outcome of each charge known (typestate).",
     "DESIGN.md §3 C11",
     "No analysed configuration enables stacker.  The reviewed constants (4, 10, 500) encode the measured stack margin; "
     "lowering a cost or raising the cap is reported.")
@@ -100,7 +100,7 @@ CLAIMED["C14"] = (
     "into a Span comes from tokenizer position fields, byte offsets change only by a character's len_utf8 and only "
     "`advance` moves the tokenizer offset (by slicing the input); instructions are emitted without a line record "
     "only at reviewed sites.  Decides that locations are attached on all error paths and that reported ranges are "
-    "character-aligned by construction; that the line is the *correct* one (shift-by-N) is value-level and not decided. Also: (F5) interprocedural FRESH/STALE analysis of the code generator: a fallible instruction is never emitted with the plain add() before the generator's line was set for the current statement; (F6) expand_span refuses to invert a span, or every path to it consumes a token; the function that moves the lexer offset also counts the newlines it skips (found by the write, not by name). Later additions: the error formatting code slices source text only at text-derived byte offsets (never at a character column). (F7) the pooled span-stack buffer is cleared when taken and every compile_* function leaves the span stack as it found it, so a recorded range always belongs to the template being compiled. (F8) set_line never takes a span read back from the span stack; (F9) tokenizer errors from helper functions get the tokenizer's position.",
+    "character-aligned by construction; that the line is the *correct* one (shift-by-N) is value-level and not decided. Also: (F5) interprocedural FRESH/STALE analysis of the code generator: a fallible instruction is never emitted with the plain add() before the generator's line was set for the current statement; (F6) expand_span refuses to invert a span, or every path to it consumes a token; the function that moves the lexer offset also counts the newlines it skips (found by the write, not by name). Later additions: the error formatting code slices source text only at text-derived byte offsets (never at a character column). (F7) the pooled span-stack buffer is cleared when taken and every compile_* function leaves the span stack as it found it, so a recorded range always belongs to the template being compiled. (F8) set_line never takes a span read back from the span stack; (F9) tokenizer errors from helper functions get the tokenizer's position. (F10) the parser, the code generator and attach_basic_debug_info are given the template source itself, never a string derived from it.",
     "DESIGN.md §3 C14",
     "std str slicing panics on non-boundaries (so a wrong byte count cannot produce a bad range silently).")
 
@@ -127,7 +127,7 @@ CLAIMED["C08"] = (
     "arithmetic; integer literals convert through from_str_radix with the error reported; every value `neg` returns "
     "is the result of a negation.  This decides 'no wrap, no silent truncation, no dropped sign, one // and % "
     "convention' for all operand pairs and storage widths; numeric values themselves and exact int/float comparison "
-    "are not decided. Also: inside the operator functions no arithmetic helper of a type narrower than 128 bits decides the outcome (wrapping/saturating forms reported; the None of a narrow checked_* must fall through to the 128-bit computation). Later additions: (N7) in as_f64 every path to None passes the cast round trip or its saturation bound, and every round trip is dominated by rv < T::MAX as f64. (N8) the mixed float/integer orderings cast the float to the integer type only below a dominating comparison with the type's maximum. (N9) the checked remainder's None arm returns 0 for a divisor of -1 and an error otherwise.",
+    "are not decided. Also: inside the operator functions no arithmetic helper of a type narrower than 128 bits decides the outcome (wrapping/saturating forms reported; the None of a narrow checked_* must fall through to the 128-bit computation). Later additions: (N7) in as_f64 every path to None passes the cast round trip or its saturation bound, and every round trip is dominated by rv < T::MAX as f64. (N8) the mixed float/integer orderings cast the float to the integer type only below a dominating comparison with the type's maximum. (N9) the checked remainder's None arm returns 0 for a divisor of -1 and an error otherwise. (N10 = C07.V3) a bit-pattern float order is reached only for floats that are not ==.",
     "DESIGN.md §3 C08",
     "One known finding (neg of 2^127 keeps the sign positive) is pinned by an existing snapshot and therefore listed, not repaired.")
 
@@ -142,7 +142,7 @@ CLAIMED["C16"] = (
     "(T3/T4) scalar payloads cross the serde bridge unchanged: serialize_<scalar> builds its variant from the argument "
     "through widening casts only; each scalar arm of deserialize_any hands exactly its payload to the visitor, text "
     "and bytes arms call text/bytes visitors.  Round trip of composite values (sequences, maps, structs, enums) and "
-    "'valid JSON that parses back to an equal value' quantify over runtime values and are NOT decided or claimed. Later additions: (T5) the Json arm of write_escaped goes through json_escape_write only and every path through it passes serde_json; (T6) the value-handle registry is inserted into only by <Value as Serialize>::serialize and removed from only by the resolving consumer.",
+    "'valid JSON that parses back to an equal value' quantify over runtime values and are NOT decided or claimed. Later additions: (T5) the Json arm of write_escaped goes through json_escape_write only and every path through it passes serde_json; (T6) the value-handle registry is inserted into only by <Value as Serialize>::serialize and removed from only by the resolving consumer. (T8) the length announced to serialize_seq/map/tuple is None or exact: no size_hint, min/max/count or arithmetic in its slice. T1 also accepts the chunked copy between searches for the full forbidden set.",
     "DESIGN.md §3 C16",
     "Partial claim (tojson HTML-safety, serialization scope, scalar bridge).  serde_json is trusted to produce the string that is filtered.")
 
@@ -170,7 +170,7 @@ CLAIMED["C15"] = (
     "resetting guard; filters/tests/globals are mutated only through Arc::make_mut.  Thorough adds rustc-checked "
     "witnesses (Send+Sync, no mutation while a Template borrows the Environment, with compiling twins).  These are "
     "the shape conditions that rule out history leaking into later renders; equality of renders across histories "
-    "and thread interleavings are not executed. Also: explicit additions use an overwriting map API and the lazy loader fill a keep-first API (reviewed API table); no field reachable from Environment puts an interior-mutable container behind an Arc (clones share only immutable state). (U9) every add_*/set_* method of Environment stores what it was given on every path to a normal return.",
+    "and thread interleavings are not executed. Also: explicit additions use an overwriting map API and the lazy loader fill a keep-first API (reviewed API table); no field reachable from Environment puts an interior-mutable container behind an Arc (clones share only immutable state). (U9) every add_*/set_* method of Environment stores what it was given on every path to a normal return. (U10) State.id comes from an atomic fetch_add on a static that is not thread-local.",
     "DESIGN.md §3 C15",
     "Per-render state lives in State and the borrow checker forbids mutation during renders (witnessed).")
 
@@ -184,7 +184,7 @@ CLAIMED["C12"] = (
     "Result of each of the ~60 helper call sites is returned/propagated; a value of type UndefinedBehavior is only "
     "passed to the reviewed functions (never into data); is defined / is undefined / default never assert their "
     "operand.  Together a non-interference argument for 'stricter modes only add errors' over all programs and "
-    "contexts; per-site behaviour of third-party callbacks is assumed mode-independent. Also: inside the interpreter a stack value is iterated only through UndefinedBehavior::try_iter (two reviewed exceptions); every path through the Emit handler passes the {Strict, SemiStrict} test or Environment::format. Later additions: (M8) in the GetAttr / GetItem handlers a failed lookup passes handle_undefined(x.is_undefined()) for the container x before anything is pushed. (M9) the constant folder never produces an undefined value (its effect is decided by the mode at run time). (M10) builtin filters/functions that iterate or print a raw Value operand ask the undefined behaviour first (reviewed table for the rest); M8 covers slicing.",
+    "contexts; per-site behaviour of third-party callbacks is assumed mode-independent. Also: inside the interpreter a stack value is iterated only through UndefinedBehavior::try_iter (two reviewed exceptions); every path through the Emit handler passes the {Strict, SemiStrict} test or Environment::format. Later additions: (M8) in the GetAttr / GetItem handlers a failed lookup passes handle_undefined(x.is_undefined()) for the container x before anything is pushed. (M9) the constant folder never produces an undefined value (its effect is decided by the mode at run time). (M10) builtin filters/functions that iterate or print a raw Value operand ask the undefined behaviour first (reviewed table for the rest); M8 covers slicing. Value::to_string() of a raw operand counts as printing.  Tables, handler arms and the who-may tables are read through crate-private helpers (inline views).",
     "DESIGN.md §3 C12",
     "Host-registered filters/functions/objects are assumed not to consult the undefined behavior.")
 
@@ -211,7 +211,7 @@ CLAIMED["C18"] = (
     "evaluates a field before assigning another the tracker must not assign first, and a variable is reported "
     "exactly when it is not assigned.  This decides soundness of the tracker's traversal against the engine's own "
     "evaluation order for all templates; lookups performed by host "
-    "objects and by the debug feature around a failing instruction are not decided. Also: every public entry point returns, unfiltered, what find_undeclared computed on every path except the parse-error exit. Later additions: (W5) implicit names: pre-assigned constants must be names the interpreter binds (loop, caller), assigned inside the construct's own scope, loop only after the loop filter was visited, a macro's name only after the macro was visited, and a name the interpreter stores only `if let Some` is Some on every producer path (traced across functions) except under the construct's does-not-mention flag; (W1b) what the code generator evaluates inside an assignment target is visited by the tracker's target walker itself. (W2b) for (target, value) collections the engine evaluates all values before binding any target only if the tracker does not interleave. (W7) every name the tracker found free in a macro body gets an Enclose instruction on every path.",
+    "objects and by the debug feature around a failing instruction are not decided. Also: every public entry point returns, unfiltered, what find_undeclared computed on every path except the parse-error exit. Later additions: (W5) implicit names: pre-assigned constants must be names the interpreter binds (loop, caller), assigned inside the construct's own scope, loop only after the loop filter was visited, a macro's name only after the macro was visited, and a name the interpreter stores only `if let Some` is Some on every producer path (traced across functions) except under the construct's does-not-mention flag; (W1b) what the code generator evaluates inside an assignment target is visited by the tracker's target walker itself. (W2b) for (target, value) collections the engine evaluates all values before binding any target only if the tracker does not interleave. (W7) every name the tracker found free in a macro body gets an Enclose instruction on every path. (W8) Context::load hands out a loop object only inside the walk over the frames, for the walked frame, after testing with_loop_var.",
     "DESIGN.md §3 C18",
     "One known finding (macro argument defaults) is listed; its repair would change macro closure capture.")
 
@@ -226,7 +226,7 @@ CLAIMED["C07"] = (
     "to_bits) is only reached on the not-`==` side of a float equality test whose other side returns Equal, so the "
     "order agrees with == on -0.0/0.0.  Other laws over concrete values within one pair "
     "(transitivity, NaN, 2^53 neighbourhood) and the algebra of sort/unique/groupby/batch/slice/reverse are "
-    "value-level and NOT decided or claimed. Later additions: (V4) a vector sorted with a stable sort is never reversed afterwards in the same filter; (V5) inside equality / ordering an optional length is never compared as a value (both must be Some); (V2) a comparator whose verdict is a constant for some pairs only is reported; (V7) the member searches of the function the In instruction calls decide by Value == Value. Round 6: (V1e) pairs of object representations that == compares must share a kind after cmp's kind folding; (V9) as_f64 exactness = C08.N7; (V10) every Enumerator arm of Value::reverse reverses (two known findings pinned by test_reverse); V2 requires kind()==String before a comparator uses as_str().",
+    "value-level and NOT decided or claimed. Later additions: (V4) a vector sorted with a stable sort is never reversed afterwards in the same filter; (V5) inside equality / ordering an optional length is never compared as a value (both must be Some); (V2) a comparator whose verdict is a constant for some pairs only is reported; (V7) the member searches of the function the In instruction calls decide by Value == Value. Round 6: (V1e) pairs of object representations that == compares must share a kind after cmp's kind folding; (V9) as_f64 exactness = C08.N7; (V10) every Enumerator arm of Value::reverse reverses (two known findings pinned by test_reverse); V2 requires kind()==String before a comparator uses as_str(). Round 7: (V11) SmallStr.buf is only read as buf[..len]; V2: an element-wise comparison over zip needs a tie-break on the lengths.",
     "DESIGN.md §3 C07",
     "Known findings (true == 1 across kinds and hashes) are listed; host Object::custom_cmp implementations are outside the analysis.")
 
